@@ -27,3 +27,15 @@ func OptionalTimestamp(sec *int64) (*time.Time, error) {
 	t := time.Unix(*sec, 0)
 	return &t, nil
 }
+
+// ValidateTimestamp verifies that a timestamp set on a token can be represented on the wire,
+// i.e. that OptionalTimestamp will accept it when the token is read back.
+func ValidateTimestamp(t *time.Time) error {
+	if t == nil {
+		return nil
+	}
+	if sec := t.Unix(); sec > limits.MaxInt53 || sec < limits.MinInt53 {
+		return fmt.Errorf("timestamp value %d exceeds safe integer bounds", sec)
+	}
+	return nil
+}
